@@ -41,12 +41,22 @@ Theorem C10_while_restores_scope : forall n P e c body st sig e' st',
 Proof. exact while_restores_scope. Qed.
 Print Assumptions C10_while_restores_scope.
 
-(* the body of a for loop runs in the loop's own frame (evalFor pushes one
-   scope for the whole loop): that frame may gain names, the frames below do not *)
-Theorem C10_for_extends_scope : forall n P e var rg body st sig e' st',
-  exec_for n P e var rg body st = (Ok (sig, e'), st') -> ext e e'.
-Proof. exact for_extends_scope. Qed.
-Print Assumptions C10_for_extends_scope.
+(* every iteration of a for loop runs its body in a scope of its own, pushed
+   over the loop's frame (which holds the loop variable) and popped afterwards:
+   the loop restores the shape exactly like while *)
+Theorem C10_for_restores_scope : forall n P e var rg body st sig e' st',
+  exec_for n P e var rg body st = (Ok (sig, e'), st') -> shape e' = shape e.
+Proof. exact for_restores_scope. Qed.
+Print Assumptions C10_for_restores_scope.
+
+(* a variable declared in a for body does not exist in the next iteration nor
+   after the loop: every iteration's body starts in an empty frame over an
+   environment of the shape the loop had at entry *)
+Theorem C10_for_trace_fresh_scope : forall P var body rg e st tr en e' st',
+  for_trace P var body rg e st tr en e' st' ->
+  Forall (fun v => shape (v_env v) = [] :: shape e) tr /\ shape e' = shape e.
+Proof. exact for_trace_fresh_scope. Qed.
+Print Assumptions C10_for_trace_fresh_scope.
 
 (* top level: there is no local frame, declarations go to the globals *)
 Theorem C10_toplevel_env_stays_empty : forall n P l st sig e' st',
@@ -145,8 +155,8 @@ Theorem C10_break_leaves_innermost_loop :
      exec_while (S f) P e c body st = (Ok (SigNone, e1), st1)) /\
   (forall f P e var rg body st l rg' st1 e1 st2 e2 st3,
      for_next rg st = (Ok (Some (l, rg')), st1) -> update_var var l e st1 = (Ok e1, st2) ->
-     exec_block f P e1 body st2 = (Ok (SigBreak, e2), st3) ->
-     exec_for (S f) P e var rg body st = (Ok (SigNone, e2), st3)) /\
+     exec_block f P ([] :: e1) body st2 = (Ok (SigBreak, e2), st3) ->
+     exec_for (S f) P e var rg body st = (Ok (SigNone, tl e2), st3)) /\
   (forall n P e c body st sig e' st',
      exec_while n P e c body st = (Ok (sig, e'), st') -> sig <> SigBreak) /\
   (forall n P e var rg body st sig e' st',
@@ -189,8 +199,8 @@ Theorem C10_return_leaves_call :
      exec_while (S f) P e c body st = (Ok (SigReturn v, e1), st1)) /\
   (forall f P e var rg body st l rg' st1 e1 st2 v e2 st3,
      for_next rg st = (Ok (Some (l, rg')), st1) -> update_var var l e st1 = (Ok e1, st2) ->
-     exec_block f P e1 body st2 = (Ok (SigReturn v, e2), st3) ->
-     exec_for (S f) P e var rg body st = (Ok (SigReturn v, e2), st3)) /\
+     exec_block f P ([] :: e1) body st2 = (Ok (SigReturn v, e2), st3) ->
+     exec_for (S f) P e var rg body st = (Ok (SigReturn v, tl e2), st3)) /\
   (forall f P fd vals st fr st1 v e2 st2,
      call_frame fd vals st = (Ok fr, st1) ->
      exec_block f P [fr] (fn_body fd) st1 = (Ok (SigReturn v, e2), st2) ->
@@ -463,6 +473,16 @@ Example ex_collections :
   printed_of (run_program 300 coll_prog st0) =
     map (fun x => Some (x ++ [10%N])%list)
         [ s_ "1"; s_ "2"; s_ "30"; [104%N]; [233%N]; [121%N]; s_ "a"; s_ "c" ].
+Proof. vmc. Qed.
+
+(* a declaration in a for body lives for one iteration only: the next iteration
+   and the code after the loop see the outer x again; hypotheses of
+   C10_for_restores_scope on the for loop of f (left by break) *)
+Example ex_for_body_scope :
+  outcome_of (run_program 300 forscope_prog st0) = ODone /\
+  printed_of (run_program 300 forscope_prog st0) = lines ["2 0"; "2 1"; "1"] /\
+  signal_of (exec_stmt 100 prog e_in inner_for st_in) = Some SigNone /\
+  shape_of (exec_stmt 100 prog e_in inner_for st_in) = Some (shape e_in).
 Proof. vmc. Qed.
 
 (* while: condition first, every iteration; a false condition runs nothing *)
